@@ -146,6 +146,9 @@ class C06Cards(Monitor):
     def before_op(self, sess, line):
         t = line.split(' ')
         s = sess.state
+        if t[0] == 'show' and len(t) > 1 and t[1] == '=':
+            # a show of no cards at all: the hand is replaced by face-down unknown cards
+            self.exact = False
         if t[0] in ('burn', 'deal_hole', 'deal_board', 'show') and len(t) > 1:
             arg = t[1]
             if arg not in ('-', '=', 'T', 'F') and not arg.startswith('#'):
